@@ -24,7 +24,9 @@ EXPLANATION = (
     'typed parser a character matching no case makes *success false, judged on the offending character '
     'itself; (GRD.2) the parsed value is replaced only on the success edge; (MPT.1) the child getter looks '
     'up before inserting and reuses; (BND.1) the whitespace/comment skipper never steps past the '
-    'terminating NUL (so a comment cannot swallow the rest of the file unnoticed).  Tree equality is NOT decided.')
+    'terminating NUL (so a comment cannot swallow the rest of the file unnoticed); (GRD.3/GRD.4) the value '
+    'setters\' change predicates and the merge\'s presence handling (shared with C15), on which "later '
+    'duplicates override earlier ones" rests.  Tree equality is NOT decided.')
 ASSUMPTIONS = ['clang 14 CFG', 'documented grammar: doc/iauthd-c.conf.example lines 1-14']
 
 U = frozenset([0, ord(';'), ord('\n'), ord('}'), ord(')'), ord('('), ord('{'), ord(','), -1])   # -1 = any other character
@@ -320,4 +322,9 @@ def run(P, R, tier):
     ws = P.need_fn('conf_parse_whitespace')
     scanner_typestate(ws, lambda e: is_field(e, 'curr', 'conf_parse'), 'C16.BND.1', R, 'whitespace/comment skipper')
     R.floor('C16.BND.1', 4)
+    # repeated keys and later files override earlier values only if the value setters notice every change
+    from . import c15
+    from ..report import Remap
+    c15.notification(P, Remap(R, {'C15.GRD.1': 'C16.GRD.3', 'C15.MPT.1': 'C16.GRD.3'}))
+    c15.removal_guard(P, Remap(R, {'C15.GRD.2': 'C16.GRD.4', 'C15.GRD.3': 'C16.GRD.4'}))
     return EXPLANATION, ASSUMPTIONS
